@@ -51,6 +51,7 @@ func (l *Lexer) skipAction() bool {
 			}
 		case '\n':
 			l.line++
+			l.lineOffset = l.scanOffset
 		}
 
 		// Scan the next character.
@@ -67,6 +68,11 @@ func (l *Lexer) skipAction() bool {
 			l.ch = r
 			if skipNext {
 				skipNext = false
+				if l.ch == '\n' {
+					// An escaped newline inside quotes still starts a new line.
+					l.line++
+					l.lineOffset = l.scanOffset
+				}
 				goto next
 			}
 		} else {
